@@ -64,10 +64,6 @@ def parseAction : List String → Option Action
   | ["s1", t] => (parseTag t).map .s1 | ["s2", t] => (parseTag t).map .s2
   | ["e"] => some .e | _ => none
 
-/-- apply the delivered events on top of a view (what a hook does with its Synchronization view) -/
-def applyEv (c : Cache) (e : Ev) : Cache :=
-  if e.kind == .deleted then c.erase e.id else c.put e.id e.cs
-
 def step (d : DSt) (toks : List String) : DSt × String :=
   match toks with
   | "cfg" :: rest =>
